@@ -49,6 +49,7 @@ type Env struct {
 	MidMark  bool // WithContext callbacks attach KeyMid
 	CtxNil   []string
 	ErrSlots map[string]bool // slots that can return an error
+	OnFire   func()          // called right before an injected fault is raised
 }
 
 // NewEnv makes an environment.
@@ -69,6 +70,9 @@ func (e *Env) Hit(slot string) {
 	n := e.count(slot)
 	if f := e.Fault; f != nil && !e.Fired && f.Slot == slot && f.Index == n && f.Kind != 2 {
 		e.Fired = true
+		if e.OnFire != nil {
+			e.OnFire()
+		}
 		if f.Kind == 0 {
 			panic(h.ErrCb)
 		}
@@ -82,6 +86,9 @@ func (e *Env) HitErr(slot string) error {
 	n := e.count(slot)
 	if f := e.Fault; f != nil && !e.Fired && f.Slot == slot && f.Index == n {
 		e.Fired = true
+		if e.OnFire != nil {
+			e.OnFire()
+		}
 		switch f.Kind {
 		case 0:
 			panic(h.ErrCb)
